@@ -9,7 +9,10 @@ Record input := { i_prog : prog; i_flavour : flavour }.
 Inductive ev := Start | Out (o : outcome) | Stop.
 (* what TestCase.run let out *)
 Inductive rk := RNone | RException | RKbd | RSysExit | RBase.
-Record obs := { o_events : list ev; o_raised : rk }.
+Record obs := {
+  o_events : list ev;
+  o_raised : rk;
+  o_ran : list nat }.   (* the tokens of the setUp / test / tearDown / cleanup / fixture bodies that were entered *)
 
 Definition ev_eqb (a b : ev) : bool :=
   match a, b with
@@ -46,6 +49,12 @@ Definition bracket (f : flavour) (evs : list ev) : option outcome :=
   | _ => None
   end.
 
+(* the bodies that are to run whatever is raised: setUp; the test and tearDown iff setUp returned;
+   every cleanup registered by a statement that was executed (Spec.Run.expected_log) *)
+Definition expected_tokens (p : prog) : list nat :=
+  flat_map (fun e => match e with STok t => [t] | STouch _ => [] end) (expected_log p).
+Definition memb (t : nat) (l : list nat) : bool := existsb (Nat.eqb t) l.
+
 Definition spec_okb (i : input) (o : obs) : bool :=
   match bracket (i_flavour i) (o_events o) with
   | None => false
@@ -53,6 +62,7 @@ Definition spec_okb (i : input) (o : obs) : bool :=
       (* the first exception raised that does not derive from Exception *)
       match find (fun e => negb (derives_from_Exception e)) (raised (i_prog i)) with
       | Some e => outcome_eqb out (deliver (i_flavour i) OErr) && rk_eqb (o_raised o) (kind_of e)
+                  && forallb (fun t => memb t (o_ran o)) (expected_tokens (i_prog i))
       | None => rk_eqb (o_raised o) RNone
       end
   end.
@@ -63,10 +73,11 @@ Definition Spec (i : input) (o : obs) : Prop :=
     o_events o = (if has_stop (i_flavour i) then [Start; Out out; Stop] else [Start; Out out])
     /\ (* no exception outside Exception was raised: run() returns *)
        ((forall e, In e (raised (i_prog i)) -> derives_from_Exception e = true) -> o_raised o = RNone)
-    /\ (* otherwise the outcome is the error (as the flavour delivers it) and the first such
-          exception comes out of run() *)
+    /\ (* otherwise the outcome is the error (as the flavour delivers it), the first such
+          exception comes out of run(), and tearDown and every cleanup were still run *)
        (forall e, find (fun e => negb (derives_from_Exception e)) (raised (i_prog i)) = Some e ->
-                  out = deliver (i_flavour i) OErr /\ o_raised o = kind_of e).
+                  out = deliver (i_flavour i) OErr /\ o_raised o = kind_of e
+                  /\ forall t, In t (expected_tokens (i_prog i)) -> In t (o_ran o)).
 
 (* no known finding is delimited for C01 (F1 and F3 are repaired in /repo) *)
 Definition findings (i : input) : list nat := [].
